@@ -136,6 +136,7 @@ def run(pid, tier):
         extra_cov['bounded_concurrent_types_standin_not_counted'] = {h: {'evaluated': r['evaluated'], 'domain': r['domain'], 'failures': len(r['failures'])}
                                                                      for h, r in c['results'].items()}
     # ---- property specific additions
+    versions_verus = None
     if pid == 'C01':
         from . import unit_kernels
         try:
@@ -143,7 +144,22 @@ def run(pid, tier):
             for f in kr['failures']:
                 out.violation('kernels::versions_base::%s' % f['obligation'], 'exhaustive native execution of the function extracted verbatim from /repo',
                               'obligation %s failed' % f['obligation'], failing_input={'kernel': 'versions_base', 'input': f['input'], 'cmd': f['cmd']})
-            extra_cov['bounded_versions_base'] = kr['results']
+            extra_cov['bounded_versions_base_cross_check'] = kr['results']
+            vv = unit_kernels.run_versions_verus()
+            versions_verus = vv
+            if vv['status'] == 'ok':
+                extra_cov['versions_base_verus'] = {'status': 'proved for every n (unbounded)', 'unit': vv['path'], 'solver_wall_s': round(vv['verus_s'], 2),
+                                                    'functions': [[f[0], f[1], f[2]] for f in vv['functions'] if '__vacuity_canary' not in f[0]],
+                                                    'rewrites': summarize_rewrites(vv['log'].rewrites)}
+            elif kr['failures']:
+                extra_cov['versions_base_verus'] = {'status': 'failed (violation demonstrated by the bounded run)', 'failures': [f['obligation'] for f in vv['failures']]}
+            else:
+                # the proof rests on ghost hints specific to the current algorithm: without a failing input in the bounded
+                # domain (every n <= 16/21) a failed or unprocessable proof is "proof lost", not a demonstrated violation
+                out.inconclusive.append('versions_base: the unbounded Verus proof no longer goes through (%s) and the bounded exhaustive run found no failing '
+                                        'assignment: proof lost, no violation demonstrated.\n%s' % (
+                                            vv['inconclusive'] or [f['obligation'] for f in vv['failures']],
+                                            '\n'.join(f['verifier_output'][:800] for f in vv['failures'][:2])))
         except (common.Inconclusive, LostAnchor) as ex:
             out.inconclusive.append('versions_base kernel: %s' % ex)
     if pid == 'C04':
@@ -174,9 +190,14 @@ def run(pid, tier):
     k_ok = sum(1 for h in k_sel if k['results'].get(h, {}).get('status') == 'SUCCESSFUL')
     n_sel = {h: r for h, r in n['results'].items() if relevant_native(pid, h)}
     real_sel = [r for r in log.real_fns if relevant_verus(pid, r['container'] if r['container'] else 'fn', r['fn'])]
+    vv_n = vv_ok = 0
+    if versions_verus is not None:
+        vvf = [f for f in versions_verus['functions'] if '__vacuity_canary' not in f[0]]
+        vv_n = len(vvf)
+        vv_ok = sum(1 for f in vvf if f[2]) if versions_verus['status'] == 'ok' else 0
     out.coverage = dict({
-        'obligations': len(sel) + len(k_sel),
-        'discharged': v_ok + k_ok,
+        'obligations': len(sel) + len(k_sel) + vv_n,
+        'discharged': v_ok + k_ok + vv_ok,
         'checker_cmd': 'verus %s --output-json --time-expanded%s' % (v['path'], ('  &&  cargo kani --harness combined_view (in %s)' % unit['crate']) if k_sel else ''),
         'trusted_base': TRUSTED,
         'explanation': 'obligation = one Verus function of the index unit (all its requires/ensures/loop-invariant/termination queries) that this property depends on'
@@ -214,7 +235,9 @@ def run(pid, tier):
                                'racing insert-if-absent have only a BOUNDED stand-in: the same contracts in executable form over the real types, every operation sequence of the '
                                'stated small shape run sequentially plus a fixed number of sampled 4-thread schedules (schedules are sampled, not enumerated; nothing of it is counted as proved)')
     if pid == 'C01':
-        out.assumptions.append('versions_base: BOUNDED stand-in (exhaustive native execution of the verbatim function, n <= 16/21); rule bodies with more dynamic clauses are outside the bound')
+        out.assumptions.append('versions_base: proved by Verus for EVERY n on the function extracted verbatim from ascent_macro/src/ascent_mir.rs with rewrite R9 '
+                               '(`for v in &mut res` -> `for v in res.iter_mut()`), a spliced loop invariant and ghost statements (R7: snapshot before the loop, '
+                               'lemma call after the final push); the bounded exhaustive run (n <= 16/21) is kept as cross-check and failing-input source')
     return out.finish()
 
 
